@@ -18,6 +18,9 @@ PROSE = ["Some text.", "# Title", "a `b` c", "", "line one\nline two", "tab\ther
          "nul\x00ctl\x1a", "\U0001F600 emoji", "'quote' \"dq\" << >>", "    indented code", "``", "` ` `"]
 
 
+INLINE_PROSE = ["", "see: ", "é€ ", "\U0001F600\U0001F600 x ", "tab\there ", "日本語の文 ", "\u00a0\u3000", "a `b` c ", "ÿ\u0301 combining "]
+
+
 def rand_doc_runes(rng):
     alpha = [96, 96, 96, 10, 97, 32, 233, 13, 9]
     if rng.random() < 0.3:
@@ -44,12 +47,17 @@ def run(ctx):
     text_go = "".join("".join(chr(c) for c in d).encode("utf-8").hex() + "\n" for d in docs)
     text_mo = "".join(" ".join(map(str, d)) + "\n" for d in docs)
     go = vlib.run_lines([ctx.verifdump, "md"], text_go)
+    # the same documents through the entry point main.go uses (file -> md.GetSource: reading, byte/rune conversions, loadMd)
+    go_file = vlib.run_lines([ctx.verifdump, "mdfile"], text_go)
     mo = vlib.run_lines([ctx.modelrun, "md"], text_mo)
     reported = 0
     disagreements = 0
     fences = collections.Counter()
-    for d, g, m in zip(docs, go, mo):
+    for d, g, gfile, m in zip(docs, go, go_file, mo):
         gr = [ord(ch) for ch in bytes.fromhex(g).decode("utf-8")]
+        if gfile != g:
+            # what gocc reads (GetSource) is not what loadMd produced: judge GetSource's output by the property's oracle below
+            gr = [ord(ch) for ch in bytes.fromhex(gfile).decode("utf-8", "replace")]
         mr = [int(x) for x in m.split()]
         fences[min("".join(chr(c) for c in d).count("```"), 6)] += 1
         # property-level oracle on the implementation: length and newline positions preserved, runes kept or blanked
@@ -95,8 +103,13 @@ def run(ctx):
             parts.append("\n".join(lines[prev:c]) + "\n")
             prev = c
         md = rng.choice(PROSE) + "\n"
+        inline = rng.random() < 0.4
         for part in parts:
-            md += "```\n" + part + "```\n" + rng.choice(PROSE) + "\n"
+            if inline:
+                # fences opened and closed in the middle of a line: prose (multi-byte characters, tabs) shares a line with code
+                md += rng.choice(INLINE_PROSE) + "```" + part + "```" + rng.choice(INLINE_PROSE) + "\n"
+            else:
+                md += "```\n" + part + "```\n" + rng.choice(PROSE) + "\n"
         if crlf:
             # the whole document with Windows line ends (prose, fence lines and code alike)
             md = md.replace("\r\n", "\n").replace("\n", "\r\n")
@@ -123,6 +136,10 @@ def run(ctx):
         if ";" in md and rc1 == 0 and not crlf:
             idx = [m.start() for m in re.finditer(r";\n", md)]
             k = rng.choice(idx)
+            # with fences in mid-line prefer an error on a line that begins with prose (columns counted across blanked prose)
+            shared = [i for i in idx if "```" in md[md.rfind("\n", 0, i) + 1:i]]
+            if shared and rng.random() < 0.8:
+                k = rng.choice(shared)
             bad_md = md[:k] + "; ;" + md[k + 1:]
             line = bad_md.count("\n", 0, k + 2) + 1
             col = k + 2 - (bad_md.rfind("\n", 0, k + 2) + 1) + 1
